@@ -10,6 +10,7 @@ import TrimeshVerif.Props.C07
 import TrimeshVerif.Props.C09
 import TrimeshVerif.Props.C10
 import TrimeshVerif.Props.C11
+import TrimeshVerif.Props.C12
 import TrimeshVerif.Props.C13
 import TrimeshVerif.Props.C17
 import TrimeshVerif.Props.C18
